@@ -1,7 +1,7 @@
 (* C02 - ForceFlush and Shutdown are complete, final, and return (batch processors: under every interleaving, given only that
    the worker keeps being scheduled - Batch/Fair.v; periodic reader and providers: evidenced by the scheduled runs).
    Property theorems only; proofs are in Batch/Proofs*.v and Batch/Theorems.v. *)
-From V Require Import Batch.Model Batch.ProofsA Batch.ProofsB Batch.Theorems Batch.Glue Batch.Spec Batch.TraceSpec Batch.TraceSpec2 Batch.TraceSpec3 Batch.Compose Batch.ComposeProofs Batch.Periodic Batch.PeriodicProofs Batch.PeriodicTrace Batch.PeriodicTrace2 Batch.PeriodicFair Batch.Progress Batch.Fair.
+From V Require Import Batch.Model Batch.ProofsA Batch.ProofsB Batch.Theorems Batch.Glue Batch.Spec Batch.TraceSpec Batch.TraceSpec2 Batch.TraceSpec3 Batch.Compose Batch.ComposeProofs Batch.Periodic Batch.PeriodicProofs Batch.PeriodicTrace Batch.PeriodicTrace2 Batch.PeriodicFair Batch.PeriodicShut Batch.Progress Batch.Fair.
 From Coq Require Import List Arith.
 Import ListNotations.
 
@@ -141,6 +141,28 @@ Theorem c02_periodic_flush_returns_under_fair_worker : forall s tr s' t,
   t <= r_notified s' \/ r_shut s' = true.
 Proof. exact periodic_flush_returns_under_fair_worker. Qed.
 Print Assumptions c02_periodic_flush_returns_under_fair_worker.
+
+(* the periodic reader's Shutdown: once the latch is stored, the worker has left its loop (its last read of shutdown_ returned true
+   and no collect thread is outstanding: the state in which the caller's join returns) after 23 steps of the worker and its collect
+   thread, under every interleaving with recorders, flushers and other Shutdown callers; a thread inside Shutdown has stored the
+   latch; and in that state every remaining step of a Shutdown caller is enabled whatever the exporter answers *)
+Theorem c02_periodic_shutdown_joinable_under_fair_worker : forall s tr s',
+  rreachable s -> r_shut s = true -> rrun s tr = Some s' -> 23 <= sprog tr -> r_wp s' = RWIdle true /\ r_coll s' = None.
+Proof. exact periodic_shutdown_joinable_under_fair_worker. Qed.
+Print Assumptions c02_periodic_shutdown_joinable_under_fair_worker.
+
+Theorem c02_periodic_shutdown_caller_has_latched : forall s t, rreachable s -> r_ap s t = RAShut2 -> r_shut s = true.
+Proof. exact shutdown_caller_has_latched. Qed.
+Print Assumptions c02_periodic_shutdown_caller_has_latched.
+
+Theorem c02_periodic_shutdown_caller_steps_enabled : forall s t,
+  rreachable s -> (r_wp s = RWIdle true /\ r_coll s = None) -> t <> 0 ->
+  (r_ap s t = RAShut2 -> r_joined s = false -> exists s', raccept s (t, RJoin 0) = Some s' /\ r_ap s' t = RAShut3) /\
+  (r_ap s t = RAShut2 -> r_joined s = true -> forall r, exists s', raccept s (t, RExpShutdown r) = Some s' /\ r_ap s' t = RAShut4 r) /\
+  (r_ap s t = RAShut3 -> forall r, exists s', raccept s (t, RExpShutdown r) = Some s' /\ r_ap s' t = RAShut4 r) /\
+  (forall r, r_ap s t = RAShut4 r -> exists s', raccept s (t, RRetShut r) = Some s' /\ r_ap s' t = RAIdle /\ r_sh_done s' = S (r_sh_done s)).
+Proof. exact shutdown_caller_steps_enabled. Qed.
+Print Assumptions c02_periodic_shutdown_caller_steps_enabled.
 
 (* the periodic reader's worker is joined at most once however many threads request Shutdown (F31): every accepted trace
    passes the join-once checker that is run on the implementation's traces *)
